@@ -161,7 +161,7 @@ PROPS["C12"] = dict(
     assumptions=COMMON_ASSUME + ["pool audit output is diagnostic only"],
     floors=lambda t: ["twin_runs", "empty_twins_started", "empty_twin_steps", "nested_cross_tree_iterations"],
     soft_floors=lambda t: ["reuse_across_trees_class_4", "reuse_across_trees_class_16", "reuse_across_trees_class_48", "reuse_across_trees_class_256"],
-    technique="reference-model + structural-hook monitors under interleaving, twin-run trace comparison, measured pool reuse",
+    technique="reference-model + structural-hook monitors under interleaving, twin-run trace comparison, measured pool reuse, sequence values kept pending across other trees' operations",
 )
 PROPS["C13"] = dict(
     title="key arguments are neither written to nor retained by reference",
@@ -170,7 +170,7 @@ PROPS["C13"] = dict(
          "shortened re-slices of keys yielded by the tree are used as Search arguments; the content is re-verified against a model built from clones; the pop idiom (k := Minimum(); Delete(k); Insert(other): the slice the caller holds must not change); a compound tree over fixed-width []byte keys with the library's byte-string codec; scanner idiom: one buffer reused for up to 20000 successive keys and operations; rune-slice collation keys: buffer reuse. distinct_nontrivial = distinct contents/units",
     assumptions=COMMON_ASSUME + ["a lazily evaluated sequence is drained before its bound buffers are overwritten"],
     floors=lambda t: ["canary_calls", "canary_calls_on_yielded_keys", "content_verifications", "scanner_ops", "rune_units"],
-    technique="canary monitor on caller memory + reference-model monitor after scribbling",
+    technique="canary monitor on caller memory + reference-model and sequence monitors (All/Backward/extremes/Range/Prefix) after scribbling, content-before-vs-after-overwrite comparison",
 )
 PROPS["C16"] = dict(
     title="independent trees and concurrent readers are race-free",
@@ -188,7 +188,7 @@ PROPS["C17"] = dict(
          "limit = 256 KiB + 0.5 B/op; goroutine count compared; every query method once on an empty tree first; 40 keys of 12 bytes cut out of 1 MiB strings / slices with 1 MiB spare capacity must not cost more than 256 KiB; a dense block of 40 fan-out families inserted and removed must leave <= 64 KiB; after deleting everything the emptied tree must keep <= 64 KiB alive (measured against a new tree and differentially by releasing it). distinct_nontrivial = kinds measured",
     assumptions=COMMON_ASSUME + ["leaks below about 0.5 B/op and off-heap memory are invisible"],
     floors=lambda t: ["ops_search_present", "ops_overwrite", "ops_delete_reinsert_same_keys", "ops_prefix", "ops_range_narrow", "ops_topk_abandoned", "delete_all_checks", "ops_keys_from_large_buffers"],
-    technique="heap monitor: live heap after forced GC against byte/operation thresholds",
+    technique="heap monitor: live heap after forced GC against byte/operation thresholds and content-dependent bounds (survivor pattern)",
 )
 PROPS["C18"] = dict(
     title="stored keys and values of any type survive garbage collection",
@@ -198,7 +198,7 @@ PROPS["C18"] = dict(
          "distinct_nontrivial = (key kind, value type) combinations completed",
     assumptions=COMMON_ASSUME + ["process-fatal reports (checkptr, runtime throw, ASan) are attributed through the pre-logged unit name"],
     floors=lambda t: ["forced_collections", "gc_readbacks", "gc_range_readbacks", "units_combo"],
-    technique="deep-equality monitor from recipes under GC stress with checkptr (and ASan in thorough)",
+    technique="deep-equality monitor from recipes under GC stress with checkptr (and ASan in thorough); finalizer monitor on values across trees of different value types",
 )
 
 
